@@ -278,7 +278,7 @@ class _OneHot(torch.utils.data.Dataset):
         return x, torch.tensor(i)
 
 
-def run_real_bmm(cfg, sizes, max_physical, acct="rdp", use_bmm=True):
+def run_real_bmm(cfg, sizes, max_physical, acct="rdp", use_bmm=True, batches=None, poisson=None):
     """Train on logical batches of the given sizes (token ids consecutive) through the real
     BatchMemoryManager / BatchSplittingSampler + DataLoader; returns the canonical lines after
     (fetch = the sampler's signal), forward/backward, step, zero_grad of every physical batch, and the
@@ -288,24 +288,39 @@ def run_real_bmm(cfg, sizes, max_physical, acct="rdp", use_bmm=True):
     from torch.utils.data._utils.collate import default_collate
 
     kind, acc, gdp, sigma, clip = cfg
-    n_tokens = sum(sizes)
+    # `batches`: explicit index lists (any order, repeats allowed: a with-replacement sampler);
+    # `poisson` = (n, sample_rate, seed, epochs): the real UniformWithReplacementSampler
+    if poisson is not None:
+        n_tokens = poisson[0]
+    elif batches is not None:
+        n_tokens = max([i for b in batches for i in b], default=0) + 1
+    else:
+        n_tokens = sum(sizes)
     eng = RealEngine(kind, acc, gdp, sigma, clip, n_tokens, acct=acct, via_engine=True)
-    batches, start = [], 0
-    for n in sizes:
-        batches.append(list(range(start, start + n)))
-        start += n
+    if batches is None:
+        batches, start = [], 0
+        for n in sizes:
+            batches.append(list(range(start, start + n)))
+            start += n
     ds = _OneHot(max(n_tokens, 1), eng.d)
     collate = wrap_collate_with_empty(collate_fn=default_collate, sample_empty_shapes=[(0, eng.d), (0,)], dtypes=[torch.float64, torch.int64])
-    dl = torch.utils.data.DataLoader(ds, batch_sampler=_FixedBatches(batches), collate_fn=collate)
+    if poisson is not None:
+        from opacus.utils.uniform_sampler import UniformWithReplacementSampler
+        n, q, seed, epochs = poisson
+        bs = UniformWithReplacementSampler(num_samples=n, sample_rate=q, generator=torch.Generator().manual_seed(seed))
+    else:
+        bs = _FixedBatches(batches)
+    dl = torch.utils.data.DataLoader(ds, batch_sampler=bs, collate_fn=collate)
     lines, phys = [eng.render("ok", [])], []
 
     def loop(loader):
-        for x, idx in loader:
-            phys.append(idx.tolist())
-            lines.append(eng.render("ok", []))                      # ↔ model op `sig b`
-            lines.append(eng.do(("fwdbwd_t", x)))
-            lines.append(eng.do(("step",)))
-            lines.append(eng.do(("ozg",)))
+        for _ in range(poisson[3] if poisson is not None else 1):
+            for x, idx in loader:
+                phys.append(idx.tolist())
+                lines.append(eng.render("ok", []))                      # ↔ model op `sig b`
+                lines.append(eng.do(("fwdbwd_t", x)))
+                lines.append(eng.do(("step",)))
+                lines.append(eng.do(("ozg",)))
 
     if use_bmm:
         with BatchMemoryManager(data_loader=dl, max_physical_batch_size=max_physical, optimizer=eng.opt) as loader:
